@@ -455,3 +455,72 @@ func (d *Dataflow) Paths(info *types.Info, endPos token.Pos, max int) (exits []E
 	walk(d.G.Blocks[0], d.Init, map[*cfg.Block]bool{})
 	return exits, ok
 }
+
+// withinExprState refines the state holding before node root for a sub-expression target that is
+// evaluated only after short-circuit operands to its left: for every enclosing `X && Y` with
+// target inside Y the state is refined by X being true, for `X || Y` by X being false (go/cfg
+// keeps a whole condition as one node; the Branch callback sees its leaves).
+func (d *Dataflow) withinExprState(root ast.Node, target ast.Node, before Facts) Facts {
+	if d.Branch == nil {
+		return before
+	}
+	var path []ast.Node
+	found := false
+	var walk func(n ast.Node) bool
+	walk = func(n ast.Node) bool {
+		if n == nil || found {
+			return found
+		}
+		if n == target {
+			found = true
+			return true
+		}
+		path = append(path, n)
+		ast.Inspect(n, func(c ast.Node) bool {
+			if c == nil || found {
+				return false
+			}
+			if c == n {
+				return true
+			}
+			if _, isLit := c.(*ast.FuncLit); isLit {
+				return false
+			}
+			walk(c)
+			return false
+		})
+		if !found {
+			path = path[:len(path)-1]
+		}
+		return found
+	}
+	walk(root)
+	if !found {
+		return before
+	}
+	s := before
+	chain := append(path, target)
+	for i := 0; i+1 < len(chain); i++ {
+		be, ok := chain[i].(*ast.BinaryExpr)
+		if !ok {
+			continue
+		}
+		inY := false
+		ast.Inspect(be.Y, func(c ast.Node) bool {
+			if c == chain[i+1] {
+				inY = true
+			}
+			return !inY
+		})
+		if !inY {
+			continue
+		}
+		switch be.Op {
+		case token.LAND:
+			s = d.refine(be.X, true, s)
+		case token.LOR:
+			s = d.refine(be.X, false, s)
+		}
+	}
+	return s
+}
